@@ -22,19 +22,25 @@ def run_batch(cases, backends="vm,wasm", want_model=True, nshards=None):
     def work(sh):
         if not sh:
             return {}
-        inp = "".join(json.dumps({"id": c["id"], "src": c["src"], "times": c["times"], "inputs": c["inputs"],
-                                  "scheduler": c.get("scheduler", False), "backends": backends}) + "\n" for c in sh)
-        p = run([os.path.join(BIN, "runprog")], input=inp, timeout=3600)
         res = {}
-        lines = p.stdout.splitlines()
-        for l in lines:
-            f = l.split("\t")
-            if len(f) >= 3:
-                res[f[0]] = [f[1], f[2], None]
-        # a crash of the harness process (abort, stack overflow) loses the rest of the shard: report which case
-        for c in sh:
-            if c["id"] not in res:
-                res[c["id"]] = ["harness-died rc=%s" % p.returncode, "harness-died rc=%s" % p.returncode, None]
+        todo = list(sh)
+        while todo:
+            inp = "".join(json.dumps({"id": c["id"], "src": c["src"], "times": c["times"], "inputs": c["inputs"],
+                                      "scheduler": c.get("scheduler", False), "backends": backends}) + "\n" for c in todo)
+            p = run([os.path.join(BIN, "runprog")], input=inp, timeout=3600)
+            for l in p.stdout.splitlines():
+                f = l.split("\t")
+                if len(f) >= 3:
+                    res[f[0]] = [f[1], f[2], None]
+            missing = [c for c in todo if c["id"] not in res]
+            if not missing:
+                break
+            # the harness process died (abort / segfault / stack overflow) on the first case without an answer:
+            # record it and go on with the rest of the shard in a fresh process
+            crasher = missing[0]
+            died = "harness-died rc=%s %s" % (p.returncode, p.stderr[-200:].replace("\n", " ").replace("\t", " "))
+            res[crasher["id"]] = [died, died, None]
+            todo = missing[1:]
         if want_model:
             minp = "".join(f"{c['id']}\t{c['times']}\t{coregen.inputs_field(c['inputs'])}\t{c['sx']}\n" for c in sh if c.get("sx"))
             q = run([os.path.join(LEANBIN, "drv_prog")], input=minp, timeout=3600)
